@@ -330,8 +330,10 @@ def main(argv):
         for k, n in (r.get("inconclusive") or {}).items():
             inconc[k] = inconc.get(k, 0) + n
     truncated = [r["key"] for r in results if r.get("truncated")]
+    # vacuous = every path died on an infeasible assumption; a configuration whose paths all ended inconclusive (solver unknown)
+    # or outside the bound is reported as inconclusive / cut, not as a harness error
     vacuous = [r["key"] for r in results if not r.get("error") and not r.get("reached") and not r.get("truncated")
-               and not r.get("cfg", {}).get("may_be_vacuous")]
+               and not r.get("inconclusive") and not r.get("cuts") and not r.get("cfg", {}).get("may_be_vacuous")]
     functions = sorted({f for r in results for f in r.get("functions", [])})
     samples = []
     for r in results[:]:
